@@ -804,6 +804,33 @@ Proof.
   rewrite Ht. f_equal. f_equal. apply map_ext. exact HF.
 Qed.
 
+(* the frequency table has one entry per dictionary entry (np.bincount(..., minlength=len(token_dictionary))) *)
+Lemma lookup_In_snd : forall (d : dict T) t i, lookup d t = Some i -> In i (map snd d).
+Proof.
+  induction d as [|[k v] d IH]; simpl; intros t i H; [discriminate|].
+  destruct (eqb t k); [inversion H; now left | right; eauto].
+Qed.
+
+Theorem freq_table_length : forall c need docs d0 d fr,
+  learn_gen need c docs d0 = Ok (d, fr) ->
+  (forall d1, d0 = Some d1 -> Forall (fun i => (i < length d1)%nat) (map snd d1)) ->
+  length fr = length d.
+Proof.
+  intros c need docs [d1|] d fr H Hwf.
+  - unfold K5_Vocab.learn_gen, construct in H. simpl in H. inversion H; subst d fr; clear H.
+    rewrite map_length. apply bincount_length.
+    specialize (Hwf d1 eq_refl). rewrite Forall_forall in *. intros i Hi.
+    unfold K5_Vocab.index_list in Hi. apply in_flat_map in Hi. destruct Hi as (t & _ & Hi).
+    destruct (lookup d1 t) as [j|] eqn:L; [|contradiction]. destruct Hi as [<-|[]].
+    apply Hwf. eapply lookup_In_snd; eauto.
+  - rewrite learn_gen_repr in H. cbv zeta in H.
+    destruct (resolve_min (min_occ c) (min_freq c) _) as [lo|]; [|discriminate].
+    destruct (resolve_max (max_occ c) (max_freq c) _) as [hi|]; [|discriminate].
+    destruct (resolve_min (min_dococc c) (min_docfreq c) _) as [dlo|]; [|discriminate].
+    destruct (resolve_max (max_dococc c) (max_docfreq c) _) as [dhi|]; [|discriminate].
+    simpl in H. inversion H; subst d fr. now rewrite map_length, mk_dict_length.
+Qed.
+
 (* a supplied dictionary is used as given *)
 Theorem vocab_given_dict : forall c need docs d,
   exists fr, learn_gen need c docs (Some d) = Ok (d, fr).
